@@ -605,6 +605,9 @@ func (a *DenseInt8Matrix) UnmarshalJSON(data []byte) error {
   if err := json.Unmarshal(data, &r); err != nil {
     return err
   }
+  if r.Rows < 0 || r.Cols < 0 || len(r.Values) != r.Rows*r.Cols {
+    return fmt.Errorf("invalid dense matrix: %d values given for dimension %dx%d", len(r.Values), r.Rows, r.Cols)
+  }
   a.values = r.Values
   a.rows = r.Rows
   a.rowMax = r.Rows
